@@ -135,10 +135,10 @@ func (s *sessionMetadatasState) Get(id string) (api.SessionMetadatas, error) {
 	return v, nil
 }
 
-func (s *sessionMetadatasState) ByClientID(clientID string) (api.SessionMetadatas, error) {
+func (s *sessionMetadatasState) ByClientID(mountPoint string, clientID string) (api.SessionMetadatas, error) {
 	s.mu.Lock()
 	defer s.mu.Unlock()
-	return s.find(func(s api.SessionMetadatas) bool { return s.ClientID == clientID })
+	return s.find(func(s api.SessionMetadatas) bool { return s.MountPoint == mountPoint && s.ClientID == clientID })
 }
 func (s *sessionMetadatasState) ByPeer(peer uint64) []api.SessionMetadatas {
 	s.mu.Lock()
